@@ -273,3 +273,8 @@ Proof.
   intros V Hn. pose proof V as (H1 & H2 & H3).
   eexists. split; [apply tail_correct; lia|]. cbn [voff vlen]. split; [lia|]. apply tail_window; assumption.
 Qed.
+
+Theorem negative_arguments {T} (v : view) (n : Z) (x : list T) (r : list (list T)) :
+  0 <= vlen v -> n < 0 ->
+  head v n = Panic PRtSlice /\ tail v n = Panic PRtSlice /\ stripe (x :: r) n = Panic PRtIndex.
+Proof. intros Hv Hn. repeat split; [apply head_negative | apply tail_negative | apply stripe_negative]; assumption. Qed.
